@@ -201,7 +201,7 @@ pub fn run_bad(w: &RegexWorld, bi: usize, st: &mut Stats, order_base: u64) {
     let re = &w.bad[bi];
     let col = &w.fams[0].cols[0];
     let small = col.arr.slice(0, col.len().min(4));
-    let small_col = Col { name: col.name.clone(), kind: col.kind, dict: col.dict, layout: col.layout, arr: small.clone(), rows: col.rows[..small.len()].to_vec(), pat_dict: false, ascii: false };
+    let small_col = Col { name: col.name.clone(), kind: col.kind, dict: col.dict, layout: col.layout, arr: small.clone(), rows: col.rows[..small.len()].to_vec(), pat_dict: false, ascii: false, foreign: None };
     for flag in [None, Some("i")] {
         let pats = make_opt(col.kind, &vec![Some(re.as_bytes()); small.len()]);
         let flags = StringArray::from(vec![flag; small.len()]);
